@@ -112,7 +112,9 @@ Main(c) ==
     [] c.kind = "dj" -> DJ(c)
     [] c.kind = "bv" -> BV(c)
     [] c.kind = "simon" -> Simon(c)
-Verdict(c) == IF ~CountsOK(c) THEN <<"fail", "decode_counts", 0>> ELSE Main(c)
+Verdict(c) == IF ~CountsOK(c) THEN <<"fail", "decode_counts", 0>>
+              ELSE IF c.argmut THEN <<"fail", "decode_output-modified-the-outcome-it-was-given", 0>>
+              ELSE Main(c)
 
 Init == i = 1
 Next == /\ i <= Len(Cases)
